@@ -100,6 +100,11 @@ func scenarios(u *universe) []scenario {
 			at(4, sCfg(&structs.TerminatingGatewayConfigEntry{Kind: structs.TerminatingGateway, Name: "term-gw",
 				Services: []structs.LinkedService{{Name: "api", SNI: "api.example"}, {Name: "*", CAFile: "/ca"}}}, "terminating-gateway term-gw [api sni, * cafile]")),
 			at(8, sReg(structs.RegisterRequest{Node: "n1", Address: "127.0.0.1", Service: svc("api")}, "register n1 api"))}},
+		{"gateway-services-explicit-vs-wildcard-deregistered", []entry{
+			at(4, sCfg(&structs.TerminatingGatewayConfigEntry{Kind: structs.TerminatingGateway, Name: "term-gw",
+				Services: []structs.LinkedService{{Name: "api", SNI: "api.example"}, {Name: "*", CAFile: "/ca"}}}, "terminating-gateway term-gw [api sni, * cafile]")),
+			at(8, sReg(structs.RegisterRequest{Node: "n1", Address: "127.0.0.1", Service: svc("api")}, "register n1 api")),
+			at(9, sDereg(structs.DeregisterRequest{Node: "n1", ServiceID: "api"}, "deregister n1 service api"))}},
 		{"ingress-wildcard-proxy-only", []entry{
 			at(6, sCfg(&structs.IngressGatewayConfigEntry{Kind: structs.IngressGateway, Name: "ingress-gw",
 				Listeners: []structs.IngressListener{{Port: 8080, Protocol: "http", Services: []structs.IngressService{{Name: "*"}}}}}, "ingress-gateway ingress-gw http [*]")),
@@ -146,7 +151,16 @@ func scenarios(u *universe) []scenario {
 		{"terminating-explicit-service-case", []entry{
 			at(7, sReg(structs.RegisterRequest{Node: "n3", ID: types.NodeID(u.nodeIDs[2]), Address: "127.0.0.3", Service: svc("Web")}, "register n3 id=X Web")),
 			at(10, sCfg(&structs.TerminatingGatewayConfigEntry{Kind: structs.TerminatingGateway, Name: "term-gw", Services: []structs.LinkedService{{Name: "web", SNI: "x.example"}}}, "terminating-gateway term-gw [web sni]")),
-			at(29, sReg(structs.RegisterRequest{Node: "n1", ID: types.NodeID(u.nodeIDs[2]), Address: "127.0.0.3"}, "register n1 id=X (renames n3; its services go)"))}},
+			at(27, sCfg(&structs.IngressGatewayConfigEntry{Kind: structs.IngressGateway, Name: "ingress-gw",
+				Listeners: []structs.IngressListener{{Port: 8080, Protocol: "tcp", Services: []structs.IngressService{{Name: "web"}}}}}, "ingress-gateway ingress-gw tcp [web]")),
+			at(29, sReg(structs.RegisterRequest{Node: "n1", ID: types.NodeID(u.nodeIDs[2]), Address: "127.0.0.3", Service: gw(structs.ServiceKindTerminatingGateway, "term-gw")},
+				"register n1 id=X term-gw (renames n3; its services go)"))}},
+		{"ingress-wildcard-service-loses-proxy", []entry{
+			at(6, sCfg(&structs.IngressGatewayConfigEntry{Kind: structs.IngressGateway, Name: "ingress-gw",
+				Listeners: []structs.IngressListener{{Port: 8080, Protocol: "http", Services: []structs.IngressService{{Name: "*"}}}}}, "ingress-gateway ingress-gw http [*]")),
+			at(8, sReg(structs.RegisterRequest{Node: "n1", Address: "127.0.0.1", Service: svc("web")}, "register n1 web")),
+			at(9, sReg(structs.RegisterRequest{Node: "n1", Address: "127.0.0.1", Service: proxy("web")}, "register n1 web-sidecar-proxy")),
+			at(12, sDereg(structs.DeregisterRequest{Node: "n1", ServiceID: "web-sidecar-proxy"}, "deregister n1 web-sidecar-proxy"))}},
 		{"node-name-case", []entry{
 			at(2, sReg(structs.RegisterRequest{Node: "n1", Address: "127.0.0.1", Service: svc("web")}, "register n1 web")),
 			at(4, sReg(structs.RegisterRequest{Node: "N1", Address: "127.0.0.1"}, "register N1"))}},
